@@ -299,6 +299,7 @@ void gen_tree(Rng &rng, const TreeOpts &o, std::vector<Member> &out) {
 	int level_all = o.level >= 0 ? o.level : (o.uniform_level ? (int) rng.below(4) : -1);
 	int budget = 1 + (int) rng.below((uint64_t) o.max_entries);
 	std::set<std::string> used;
+	auto sp = [&](const std::string &d) { return (o.abs_mix && !d.empty() && rng.chance(1, 3)) ? "/" + d : d; };
 	std::function<void(const std::string &, int, bool)> fill = [&](const std::string &dir, int depth, bool top) {
 		int kids = top ? budget : 1 + (int) rng.below(4);
 		std::vector<std::string> siblings;
@@ -319,13 +320,13 @@ void gen_tree(Rng &rng, const TreeOpts &o, std::vector<Member> &out) {
 			if (o.dirs && depth < o.max_depth && what < 3) {
 				--budget;
 				bool explicit_entry = o.explicit_dirs_only || rng.chance(3, 4);
-				if (explicit_entry) out.push_back(gen_dir(rng, lvl, dir + nm + "/", o));
+				if (explicit_entry) out.push_back(gen_dir(rng, lvl, sp(dir + nm + "/"), o));
 				else ++budget;   // implicit parent: costs nothing, but needs at least one child
 				size_t before = out.size();
 				fill(dir + nm + "/", depth + 1, false);
 				if (!explicit_entry && out.size() == before && budget > 0) {
 					--budget;
-					out.push_back(gen_file(rng, lvl, dir + nm + "/", gen_name(rng), o));
+					out.push_back(gen_file(rng, lvl, sp(dir + nm + "/"), gen_name(rng), o));
 				}
 			} else if (o.symlinks && what == 3) {
 				--budget;
@@ -339,10 +340,10 @@ void gen_tree(Rng &rng, const TreeOpts &o, std::vector<Member> &out) {
 					case 4: target = "../" + gen_name(rng); break;
 					default: target = gen_name(rng) + "/../../" + gen_name(rng); break;
 				}
-				out.push_back(gen_symlink(rng, lvl, dir, nm, target, o));
+				out.push_back(gen_symlink(rng, lvl, sp(dir), nm, target, o));
 			} else {
 				--budget;
-				Member f = gen_file(rng, lvl, dir, nm, o);
+				Member f = gen_file(rng, lvl, sp(dir), nm, o);
 				if (f.gname != nm) {
 					// MacLHA payloads bring their own name
 					if (used.count(dir + f.gname)) continue;
